@@ -143,6 +143,23 @@ func c07() {
 				if !laws.DeepEq(orig, frozen) {
 					r.Violation(map[string]string{"rule": "apply-mutates-base"}, "Apply mutated its base entry", w)
 				}
+				// Nor may it mutate the change list it is given: a later change that
+				// lands two levels inside an earlier change's new content must be
+				// applied to Apply's own copy, and the result must be the composition.
+				first := gen.Dir(map[string]*core.Entry{"inner": gen.Dir(map[string]*core.Entry{"a": gen.File(gen.D1, false)})})
+				second := gen.File(gen.D3, true)
+				changes := []*core.Change{{Path: "zz", New: first}, {Path: "zz/inner/b", New: second}, {Path: "zz/inner/a"}}
+				firstFrozen, secondFrozen := gen.Clone(first), gen.Clone(second)
+				got, err := core.Apply(gen.Clone(e), changes)
+				want, _ := gen.Set(e, "zz", gen.Dir(map[string]*core.Entry{"inner": gen.Dir(map[string]*core.Entry{"b": gen.File(gen.D3, true)})}))
+				if err != nil || !laws.DeepEq(got, want) {
+					w["result"] = gen.Describe(got)
+					r.Violation(map[string]string{"rule": "apply-nested-change-list"}, fmt.Sprintf("Apply of a change list whose later changes land inside an earlier change's content gave a wrong result (err=%v)", err), w)
+				}
+				if !laws.DeepEq(first, firstFrozen) || !laws.DeepEq(second, secondFrozen) {
+					w["change_new_after"] = gen.Describe(first)
+					r.Violation(map[string]string{"rule": "apply-mutates-changes"}, "Apply mutated the new content of a change it was given", w)
+				}
 			}
 		})
 	}
